@@ -795,6 +795,14 @@ pub fn check_polar(c: &PolarCase, obs: &mut Obs) -> Check {
     let p = polar(r, az);
     ensure!(same_bits(p.r(), r) && same_bits(p.az().to_rads(), az.to_rads()), "polar-accessors", "polar({r:?}, {:?} rad) reads back as ({:?}, {:?} rad)", az.to_rads(), p.r(), p.az().to_rads());
     let v = p.to_cart();
+    // every spelling of the conversion is the same function
+    let (vf, vi): (Vec2, Vec2) = (Vec2::from(p), p.into());
+    ensure!(
+        same_bits(vf.x(), v.x()) && same_bits(vf.y(), v.y()) && same_bits(vi.x(), v.x()) && same_bits(vi.y(), v.y()),
+        "from-impl-differs",
+        "polar({r:?}, {:?} rad): Vec2::from / into give ({:?}, {:?}) / ({:?}, {:?}) but to_cart() gives ({:?}, {:?})",
+        az.to_rads(), vf.x(), vf.y(), vi.x(), vi.y(), v.x(), v.y()
+    );
     let (rd, ad) = (r as f64, az.to_rads() as f64);
     let want = [rd * ad.cos(), rd * ad.sin()];
     if r == 0.0 {
@@ -845,6 +853,14 @@ pub fn check_sph(c: &SphCase, obs: &mut Obs) -> Check {
         s.alt().to_rads()
     );
     let v = s.to_cart();
+    // every spelling of the conversion is the same function (altitudes beyond +-90 degrees included)
+    let (vf, vi): (Vec3, Vec3) = (Vec3::from(s), s.into());
+    ensure!(
+        same_bits(vf.x(), v.x()) && same_bits(vf.y(), v.y()) && same_bits(vf.z(), v.z()) && same_bits(vi.x(), v.x()) && same_bits(vi.y(), v.y()) && same_bits(vi.z(), v.z()),
+        "from-impl-differs",
+        "spherical({r:?}, {:?} rad, {:?} rad): Vec3::from gives ({:?}, {:?}, {:?}) but to_cart() gives ({:?}, {:?}, {:?})",
+        az.to_rads(), alt.to_rads(), vf.x(), vf.y(), vf.z(), v.x(), v.y(), v.z()
+    );
     let (rd, ad, ld) = (r as f64, az.to_rads() as f64, alt.to_rads() as f64);
     // azimuth 90 deg is +z, altitude 90 deg is +y (unit tests spherical_to_cartesian)
     let want = [rd * ad.cos() * ld.cos(), rd * ld.sin(), rd * ad.sin() * ld.cos()];
